@@ -277,6 +277,18 @@ fn item_ok(z: &[Fq], sys: &Sys, it: &MatItem) -> Result<(), String> {
 /// judge a satisfying assignment `z`; `native_rejects`: the native program fails on these inputs
 pub fn judge(sys: &Sys, mat: &Mat, z: &[Fq], native_rejects: Option<&str>) -> Verdict {
     for it in &mat.inputs {
+        if let MatItem::Fq { w, native, sign_free: true, what } = it {
+            // the sign of an isqrt output is the prover's choice: the other root is another statement,
+            // anything else is a wrong root
+            let got = z[sys.col_of_witness(*w)];
+            if got == *native {
+                continue;
+            }
+            if got == -*native {
+                return Verdict::SatisfiedInputChanged;
+            }
+            return Verdict::Wrong(format!("{what} is {} which is neither square root +-{}", hex::encode(got.to_bytes()), hex::encode(native.to_bytes())));
+        }
         if item_ok(z, sys, it).is_err() {
             return Verdict::SatisfiedInputChanged;
         }
